@@ -337,8 +337,10 @@ def bfs(tier, ctx):
 # propagation (E1)
 # ------------------------------------------------------------------------------------------
 # array metadata under every class of name: public, underscore-prefixed, class member / constructor argument, dimension name
-AATTRS = {"long": "L", "hist": [1, 2], "_FillValue": -9, "values": "meta-values", "dtype": "f4", "axes": "meta-axes", "x": "meta-x", "copy": True}
-XATTRS = {"units": "m", "std": ["q"]}
+AATTRS = {"long": "L", "hist": [1, 2], "_FillValue": -9, "values": "meta-values", "dtype": "f4", "axes": "meta-axes", "x": "meta-x", "copy": True,
+          "cls": "C", "self": "me", "dims": "meta-dims", "labels": "meta-labels", "args": [1], "metadata": {"k": 1}}
+# (axis metadata under the names of the Axis constructor's own parameters included)
+XATTRS = {"units": "m", "std": ["q"], "self": 1, "dtype": "f4", "tol": "t", "values": "V", "name": "N", "kwargs": 2}
 YATTRS = {"units": "s"}
 
 
@@ -357,7 +359,8 @@ def _other_axis(labels):
 KEEP_OPS = {   # name -> (callable on a, axes whose attrs must survive or None)
     "idx_scalar": (lambda a: a[10], ["y"]), "idx_list": (lambda a: a[[10, 20]], ["x", "y"]), "idx_mask": (lambda a: a[np.array([True, False, True])], ["x", "y"]),
     "idx_slice": (lambda a: a[30:10], ["x", "y"]), "idx_pos": (lambda a: a.ix[0:2], ["x", "y"]), "idx_take": (lambda a: a.take({"y": ["a"]}), ["x", "y"]),
-    "idx_2d": (lambda a: a[[20, 30], "a"], ["x"]), "take_axis": (lambda a: a.take_axis([10, 30], axis="x"), ["x", "y"]),
+    "idx_2d": (lambda a: a[[20, 30], "a"], ["x"]), "idx_bcast": (lambda a: a.take(([10, 30], "a"), broadcast=True), ["x"]),
+    "idx_bcast_mask": (lambda a: a.take((np.array([True, False, True]), "b"), broadcast=True), ["x"]), "take_axis": (lambda a: a.take_axis([10, 30], axis="x"), ["x", "y"]),
     "sum": (lambda a: a.sum(axis="x"), None), "mean": (lambda a: a.mean(axis=1), None), "median": (lambda a: a.median(axis="y"), None),
     "std": (lambda a: a.std(axis="x", skipna=True), None),
     "cumsum": (lambda a: a.cumsum(axis="x"), None), "cumprod": (lambda a: a.cumprod(), None), "diff": (lambda a: a.diff(axis="x"), None),
